@@ -298,7 +298,19 @@ func decOf(x *big.Int) sdk.Dec { return sdk.NewDecFromBigIntWithPrec(new(big.Int
 
 // GenDecInt: scaled integer of a Dec (value * 10^18), boundary-biased, including rounding ties.
 func GenDecInt(r *sim.Rand) *big.Int {
-	switch r.Intn(10) {
+	switch r.Intn(11) {
+	case 10:
+		// whole parts next to the int64 / int32 / 2^255 bounds with fractions around one half: where a conversion
+		// to a machine integer must still refuse after rounding
+		w := new(big.Int).Lsh(big.NewInt(1), []uint{63, 63, 63, 31, 64, 255}[r.Intn(6)])
+		w.Add(w, big.NewInt(int64(r.Intn(3)-1)))
+		x := new(big.Int).Mul(w, prec)
+		fr := []*big.Int{new(big.Int).Neg(half), new(big.Int).Sub(big.NewInt(1), half), new(big.Int).Sub(big.NewInt(0), big.NewInt(1)), big.NewInt(0), big.NewInt(1), new(big.Int).Sub(half, big.NewInt(1)), half, new(big.Int).Add(half, big.NewInt(1))}[r.Intn(8)]
+		x.Add(x, fr)
+		if r.Bool() {
+			x.Neg(x)
+		}
+		return x
 	case 0:
 		return GenBig(r, 315, true)
 	case 1: // k + 1/2 at the 18th digit after a multiplication by something simple
@@ -508,13 +520,17 @@ func CheckDec(r *sim.Rand, rep Reporter) {
 
 // ---- Coins -------------------------------------------------------------------------------------------
 
-var denoms = []string{"aaa", "abc", "abd", "upokt", "zzz", "mmm1"}
+// fourteen denominations: sets of up to fourteen coins (lookups in long sets take other code paths than in short ones)
+var denoms = []string{"aaa", "abc", "abd", "upokt", "zzz", "mmm1", "bbb", "ccc", "ddd", "eee9", "fff", "upokz", "yyy", "a00"}
 
 type cmodel map[string]*big.Int
 
 func genCoins(r *sim.Rand) (sdk.Coins, cmodel) {
 	m := cmodel{}
-	n := r.Intn(len(denoms) + 1)
+	n := r.Intn(7)
+	if r.Chance(30) {
+		n = r.Intn(2*len(denoms) + 1) // long sets (drawing with repetition: up to all fourteen)
+	}
 	for i := 0; i < n; i++ {
 		d := denoms[r.Intn(len(denoms))]
 		var amt *big.Int
